@@ -388,6 +388,40 @@ theorem start5_inv (basis : Array W) : PolicyInv basis 5 start5 := by
   omega
 
 example : start5.gameOver.1 = false := by decide
+
+/-- the live 5×5 position of the pinned defect satisfies the invariant as well (44 pieces in all) -/
+theorem pinnedPos_inv : PolicyInv noBasis 5 pinnedPos := by
+  have hp : Pos.fromSquares noBasis { size := 5, pieces := 0, capstones := 0, blackWinsTies := false }
+      ([List.replicate 10 wF, List.replicate 9 wF, [wF], [wF], [], [bF], [bF]] ++ List.replicate 18 []) 58 = .ok pinnedPos := by
+    decide +kernel
+  refine ⟨Tak.fromSquares_wf noBasis _ _ 58 pinnedPos (by decide) (by decide) hp, by decide +kernel, by decide +kernel, .inl (by decide +kernel)⟩
+
+/-- instances of `placeWins_select_never_panics`, `uniform_select_legal` and `placeWin_square_completes_road` on it -/
+example (rnd : Nat → Nat) (k : Nat) : ∃ q k', placeWinsSelect noBasis (Gen.precompute 5) rnd pinnedPos k = .ok (q, k') ∧
+    (∃ m, pinnedPos.apply noBasis m = .ok q ∧ Spec.step (Spec.abs pinnedPos) (Spec.decode m) = some (Spec.abs q)) := by
+  obtain ⟨q, k', h1, h2, _⟩ := placeWins_select_never_panics noBasis 5 rnd pinnedPos k pinnedPos_inv pinnedPos_facts.1
+  exact ⟨q, k', h1, h2⟩
+example (rnd : Nat → Nat) (k : Nat) : ∃ q k', uniformSelect noBasis rnd pinnedPos k = .ok (q, k') ∧ k < k' :=
+  let ⟨q, k', h1, _, _, h4, _⟩ := uniform_select_legal noBasis 5 rnd pinnedPos k pinnedPos_inv pinnedPos_facts.1
+  ⟨q, k', h1, h4⟩
+example : ∃ q, pinnedPos.apply noBasis ⟨4, 0, Facts.mtPlaceCapstone, 0⟩ = .ok q ∧ RoadWin q .white := by
+  have wf : Roads.WFBoard pinnedPos := (Roads.wfBoardB_iff _).mp (by decide +kernel)
+  have h := (placeWin_square_completes_road noBasis pinnedPos wf (by decide +kernel) 4 (by decide +kernel)).2.2.2
+  have htm : pinnedPos.toMove = .white := by decide +kernel
+  rw [htm] at h
+  exact h (by decide +kernel)
+
+/-- an instance of the lift: one iteration, children left in order -/
+example (pol : Policy) (rnd : Nat → Nat) (pick : Nat → Nat → List Nat → Nat) (tie : Nat → Nat → Bool) :
+    ∃ m q, getMoveR noBasis false
+        { iterations := 1, pick := pick, rollout := fun _ _ => 0, sorted := fun _ l => l, tie := tie, bits := [], mmMove := zeroMove }
+        (rollout (pol.select noBasis (Gen.precompute 5) rnd) (evaluateDefault (Gen.precompute 5)) 50 2000) pinnedPos 0 = .ok m ∧
+      pinnedPos.apply noBasis m = .ok q := by
+  obtain ⟨m, q, h1, h2, _⟩ := mcts_move_legal_rollouts noBasis 5
+    { iterations := 1, pick := pick, rollout := fun _ _ => 0, sorted := fun _ l => l, tie := tie, bits := [], mmMove := zeroMove }
+    pol rnd 50 2000 pinnedPos false 0 pinnedPos_inv pinnedPos_facts.1 (by simp) (Nat.le_refl _)
+    (fun a l hl => ⟨hl, fun x hx => hx⟩)
+  exact ⟨m, q, h1, h2⟩
 /-- so a rollout from the start position of a 5×5 game is total for both policies and every random stream -/
 example (basis : Array W) (pol : Policy) (rnd : Nat → Nat) :
     ∃ v k', rollout (pol.select basis (Gen.precompute 5) rnd) (evaluateDefault (Gen.precompute 5)) 50 2000 start5 0
